@@ -321,3 +321,82 @@ func VX_C18_SlotAfterCloseAndLoss(args []int) {
 	vxAssert(admitted == 1, "the released slot is usable again")
 	vxCover("c18.slot-after-close-and-loss")
 }
+
+func init() {
+	vxRegister("VX_C18_HandlerQPS", VX_C18_HandlerQPS)
+	vxRegister("VX_C18_UpdateLimits", VX_C18_UpdateLimits)
+}
+
+// VX_C18_HandlerQPS: per-handler rate limits: of k calls to a limited service
+// method no more than its capacity are handled within one interval, the rest
+// get an error reply; calls to other methods are bounded only by the total
+// limit. args: C (limit of /a), k, total(0 none, else total limit)
+func VX_C18_HandlerQPS(args []int) {
+	C, k, total := args[0], args[1], args[2]
+	cfg := LimitConfig{QPSInterval: time.Second, MaxHandlerQPS: []HandlerLimit{{ServiceMethod: "/a", MaxQPS: int32(C)}}}
+	if total > 0 {
+		cfg.MaxTotalQPS = int32(total)
+	}
+	o := New(cfg)
+	p := erpc.NewPeer(erpc.PeerConfig{}, o)
+	handled := map[string]int{}
+	p.SetUnknownCall(func(ctx erpc.UnknownCallCtx) (interface{}, *erpc.Status) {
+		handled[ctx.ServiceMethod()]++
+		return []byte("ok"), nil
+	})
+	conn := newVxConn("srv:1", "cli:2")
+	_, st := p.ServeConn(conn)
+	vxAssume(st.OK())
+	for j := 0; j < k; j++ {
+		m := "/a"
+		if vxBool("other") {
+			m = "/b"
+		}
+		conn.feed(vxFrame(erpc.TypeCall, int32(j+1), m, []byte("x")))
+		vxWaitIdle()
+	}
+	vxAssert(handled["/a"] <= C, "a limited method is handled no more often than its capacity within one interval")
+	if total > 0 {
+		vxAssert(handled["/a"]+handled["/b"] <= total, "all methods together stay within the total capacity")
+	}
+	vxAssert(conn.nWrites() == k, "[C03] every CALL is answered")
+	okN := 0
+	for _, w := range conn.writes {
+		if m, err := vxParse(w); err == nil && m.StatusOK() {
+			okN++
+		}
+	}
+	vxAssert(okN == handled["/a"]+handled["/b"], "rejected calls receive an error reply instead of being handled")
+	vxCover("c18.handler-qps")
+}
+
+// VX_C18_UpdateLimits: the connection limit is lowered at run time: from then
+// on no connection is admitted while the number of live sessions is at or
+// above the new limit. args: N0, N1 (N1 < N0)
+func VX_C18_UpdateLimits(args []int) {
+	N0, N1 := args[0], args[1]
+	o := New(LimitConfig{MaxConn: int32(N0)})
+	p := erpc.NewPeer(erpc.PeerConfig{}, o)
+	var live []erpc.Session
+	for k := 0; k < N0; k++ {
+		s, st := p.ServeConn(newVxConn("srv:1", fmt.Sprintf("cli:%d", k)))
+		vxAssert(st.OK(), "the first N0 connections are admitted")
+		live = append(live, s)
+	}
+	o.Update(LimitConfig{MaxConn: int32(N1)})
+	// sessions end one by one; after each, one newcomer knocks
+	for len(live) > 0 {
+		live[0].Close()
+		live = live[1:]
+		vxWaitIdle()
+		s, st := p.ServeConn(newVxConn("srv:1", fmt.Sprintf("new:%d", len(live))))
+		if st.OK() {
+			live = append(live, s)
+			vxAssert(len(live) <= N1, "after the limit was lowered nobody is admitted beyond the new limit")
+			break // (a rejected newcomer wrongly gives back a slot - recorded finding - so stop at the first admission)
+		}
+		vxWaitIdle()
+		break
+	}
+	vxCover("c18.update-limits")
+}
